@@ -124,8 +124,15 @@ def undelta(obs):
     return obs
 
 
-def obs_term(ob, prev_heap):
-    out = C("Ok") if ob["out"] == "Ok" else C("Raise", C(ob["out"]))
+def obs_term(ob, prev_heap, expect_valueerror=False):
+    # ValueError out of an assignment is the documented response when the rest of a NON-optional expression cannot
+    # be hooked on the new value (the value is stored, the old value is unhooked, the user notifier has been
+    # called): where the case marks the operation with "raises" it is canonicalised to Ok; anywhere else it is
+    # an unexpected exception
+    o = ob["out"]
+    if o == "ValueError":
+        o = "Ok" if expect_valueerror else "OtherError"
+    out = C("Ok") if o == "Ok" else C("Raise", C(o))
     calls = [((Nat(c[0]), Nat(c[1])), atom(c[2]), Nat(c[3]), nats(c[4]), nats(c[5])) for c in ob["calls"]]
     delta = []
     for key in sorted(set(ob["heap"]) | set(prev_heap), key=slot):
@@ -141,7 +148,7 @@ def to_term(case, obs):
     undelta(obs)
     prev_heap, prev_hooks = {}, None
     for op, ob in zip(case["ops"], obs):
-        obt = obs_term(ob, prev_heap)
+        obt = obs_term(ob, prev_heap, op[-1] == "raises")
         prev_heap = ob["heap"]
         if ob["hooks"] == prev_hooks:
             hs = None
@@ -158,6 +165,8 @@ def to_term(case, obs):
 
 
 def opkind(op):
+    if op[0] == "SetRef" and op[-1] == "raises":
+        return "SetRef.%s.unhookable" % FIELD[op[2]]
     if op[0] in ("SetRef", "SetCont") and op[-1] == "del":
         return "del.%s" % FIELD[op[2]]
     if op[0] == "AddTrait":
@@ -788,6 +797,35 @@ def corpus():
     return cs
 
 
+def gen_strict_case(rnd, ctx):
+    """An intermediate trait is re-assigned to an object on which the rest of a NON-optional expression cannot be
+    hooked (it lacks the dynamic trait x1): the assignment is stored and raises ValueError; the old value must be
+    unhooked all the same (the model skips a named observer on an object without the trait, which is the hook
+    state the implementation is left with after undoing the failed walk)."""
+    n1, n2 = rnd.random() < 0.6, rnd.random() < 0.7
+    V = [0, True, False, []]
+    g = rnd.choice([[1, n1, False, [[12, n2, False, [V]]]], [1, n1, False, [[12, True, False, []]]]])
+    ops = [["AddTrait", 1, 12], ["SetRef", 0, 1, 1]]
+    if rnd.random() < 0.6:
+        ops.append(["SetRef", 1, 12, 3])
+    ops.append(["Observe", 0, 0, g])
+    ops += probes_for(4)
+    ops.append(["SetRef", 0, 1, 2, "raises"])          # object 2 has no x1
+    ops += probes_for(4)
+    if rnd.random() < 0.5:
+        ops.append(["SetRef", 1, 12, None if rnd.random() < 0.5 else 2])
+        ops += probes_for(4)
+    ops.append(["SetRef", 0, 1, 1])                     # back to an object that can be hooked
+    ops += probes_for(4)
+    if rnd.random() < 0.5:
+        ops.append(["SetRef", 0, 1, 2, "raises"])
+        ops += probes_for(4)
+        ops.append(["SetRef", 0, 1, None])
+        ops += probes_for(4)
+    ctx.count("strict-expr:" + show_graph(g))
+    return dict(npool=4, shape="acyclic", ops=ops)
+
+
 def gen_dyn_case(rnd, ctx):
     """A history with add_trait: optional named observers of traits that do not exist yet, anytrait observers,
     the trait_added maintainers.  Links only go from lower to higher object numbers (acyclic)."""
@@ -887,6 +925,46 @@ def truncate_replays(ctx):
             pass
 
 
+def run_strict(ctx, cases):
+    """Histories in which hooking a NON-optional expression on a new value fails with ValueError: after the failed
+    walk is undone the implementation has no notifier at all on the new object (not even the trait_added
+    maintainers the model keeps), so the model is not compared; the property law is evaluated on the
+    implementation's observations (the detached old value must be silent, nothing else raises)."""
+    name = "law on histories with an unhookable new value (ValueError expected; law only, no model)"
+    rc, obs, err = ctx.run_driver(DRIVER, cases)
+    if rc != 0 or obs is None or len(obs) != len(cases):
+        ctx.obligation(name, False, "driver failed: " + err[-300:])
+        ctx.fail("harness/strict", "strict histories could not be run: " + err[-300:], dict(error=err[-1500:]),
+                 no_input=True)
+        return
+    terms = [to_term(c, o) for c, o in zip(cases, obs)]
+    try:
+        (res,) = coqrun.eval_cases(ctx.scratch, "strict", HEADER, CASE_T, terms, ["law_codes"])
+    except coqrun.CoqError as e:
+        ctx.obligation(name, False, str(e)[-300:])
+        ctx.fail("harness/strict", "strict histories could not be evaluated: %s" % e, dict(error=e.log[-1500:]),
+                 no_input=True)
+        return
+    for c, o in zip(cases, obs):
+        sig, nt = nontrivial(c, o)
+        ctx.case_seen("strict" + sig, nt)
+    seen = set()
+    for i, code in sorted(res):
+        step, clause = code // 100, code % 100
+        key = "strict/" + key_fn(cases[i], obs[i], step, clause)
+        if key in seen:
+            continue
+        seen.add(key)
+        case = dict(cases[i])
+        case["ops"] = case["ops"][:step + 1]
+        ctx.fail(key, "unhookable new value: " + describe(cases[i], obs[i], step, clause),
+                 dict(kind="law-failure-on-implementation", clause=clause, step=step, case=case,
+                      impl_obs=obs[i][:step + 1]))
+    raised = sum(1 for o in obs for ob in o if ob["out"] == "ValueError")
+    ctx.obligation(name, not res, "%d histories, %d expected ValueErrors, %d law failures" % (
+        len(cases), raised, len(set(i for i, _ in res))))
+
+
 def check_hyps(ctx, cases):
     """Evaluate the hypotheses of the theorems (Model.hyps) on the model run of every case."""
     terms = [(Nat(c["npool"]), [op_term(o) for o in c["ops"]]) for c in cases]
@@ -933,6 +1011,7 @@ def run(ctx):
     else:
         cases = corpus() + [gen_case(rnd, ctx, maxmut) for _ in range(n)]
         cases += [gen_dyn_case(rnd, ctx) for _ in range(n // 4)]       # histories with add_trait
+        strict = [gen_strict_case(rnd, ctx) for _ in range(max(20, n // 50))]  # non-optional observers that fail
         import os
         for i in range(int(os.environ.get("VERIF_C08_CYCLE_SEARCH", "0"))):   # development aid: look for F14 triggers
             c = gen_case(rnd, ctx, 5, cyclic=True)
@@ -942,6 +1021,8 @@ def run(ctx):
         ctx.sample(c)
     hist.run(ctx, DRIVER, cases, to_term, HEADER, CASE_T, key_fn, describe, nontrivial,
              relation="C08.Corr.corr_codes (Model.step = observe machinery on every step)", do_shrink=False)
+    if not ctx.replay:
+        run_strict(ctx, strict)
     truncate_replays(ctx)
     if not ctx.replay:
         check_hyps(ctx, cases)
